@@ -6,6 +6,8 @@ import TemplVerif.Drive.C03
 import TemplVerif.Drive.C05
 import TemplVerif.Drive.C20
 import TemplVerif.Drive.C19
+import TemplVerif.Drive.C18
+import TemplVerif.Drive.C11
 import Std.Data.HashMap
 open TemplVerif TemplVerif.Drive
 
@@ -18,6 +20,8 @@ def dispatch (ws : List String) : Verdict :=
   | "C05" :: rest => C05.handle rest
   | "C20" :: rest => C20.handle rest
   | "C19" :: rest => C19.handle rest
+  | "C18" :: rest => C18.handle rest
+  | "C11" :: rest => C11.handle rest
   | _ => .badOp
 
 structure Stats where
